@@ -76,10 +76,11 @@ def noiseless_part(rep, rng, drv, QD, n_cases, replay):
             try:
                 d = QD(a, b, c, convex)
                 nsa = np.array(ns)
-                if replay is None and rng.random() < 0.3:
-                    lab = rng.choice(PRIMES)
+                lab = k.get("prime") if replay is not None else (rng.choice(PRIMES) if rng.random() < 0.3 else None)
+                if lab:
+                    inp["history"] = lab      # calls made first, same_* ones on this very instance (see prime_calls)
                     rep.count("noiseless:history=" + lab)
-                    run_primes(prime_calls(QD, k, lab, noisy=False))
+                    run_primes(prime_calls(QD, k, lab, noisy=False, inst=d))
                 qt = d.quantile_tuning_curve(nsa, q=q, minimize=mn)
                 av = d.average_tuning_curve(nsa, minimize=mn)
                 qt_s, av_s = d.quantile_tuning_curve(ns[1], q=q, minimize=mn), d.average_tuning_curve(ns[1], minimize=mn)
@@ -307,8 +308,9 @@ def noisy_quantile_part(rep, rng, drv, NQ, switches, n_cases):
                 nsa = np.array(ns)
                 if rng.random() < 0.4:
                     lab = rng.choice(PRIMES)
+                    inp["history"] = lab      # calls made first, same_* ones on this very instance (see prime_calls)
                     rep.count("noisy_qtc:history=" + lab)
-                    run_primes(prime_calls(NQ, k, lab, with_avg=False))
+                    run_primes(prime_calls(NQ, k, lab, with_avg=False, inst=d))
                 qt = d.quantile_tuning_curve(nsa, q=q, minimize=mn)
                 qt_s = d.quantile_tuning_curve(ns[1], q=q, minimize=mn)
                 qt_d, qt_n = d.quantile_tuning_curve(nsa, q=q, minimize=convex), d.quantile_tuning_curve(nsa, q=q)
@@ -361,25 +363,37 @@ def noisy_quantile_part(rep, rng, drv, NQ, switches, n_cases):
                              note="quantile curve differs from the model's 30-step bisection although F(t) is within 2e-5 of the level")
 
 
-PRIMES = ("sibling_convex", "sibling_c", "sibling_o", "same_other_n", "same_looser_atol", "same_minimize_flip", "same_quantile_first")
+PRIMES = ("sibling_convex", "sibling_c", "sibling_o", "same_other_n", "same_looser_atol", "same_minimize_flip", "same_quantile_first",
+          "same_instance_other_direction_same_ns", "same_instance_back_and_forth", "twin_minimize_flip")
 
 
-def prime_calls(cls, k, label, noisy=True, with_avg=True):
-    """history stratum: calls made in the same process *before* the judged call, on the same instance or on a sibling that
-    differs in exactly one parameter.  The property is about the distribution and n, not about what was evaluated before, so
-    the judged value must still meet the same oracle (a memo keyed on too few parameters is the typical way to break this)."""
+def prime_calls(cls, k, label, noisy=True, with_avg=True, inst=None):
+    """history stratum: calls made in the same process *before* the judged call.  `same_*`: on the very instance that is judged
+    afterwards (`inst`; state carried by the object — a per-instance memo keyed on too few of the arguments is the typical way to
+    break this), `twin_*`: on a new instance with equal parameters (state keyed by the parameters), `sibling_*`: on a new instance
+    that differs in exactly one parameter.  The property is about the distribution and n, not about what was evaluated before,
+    so the judged value must still meet the same oracle.  When the judged call runs in a forked child the thunks run inside
+    that child, on the child's copy of `inst` (which is the object the judged call is then made on)."""
     a, b, c, convex, mn, ns = k["a"], k["b"], k["c"], k["convex"], k["mn"], k["ns"]
     o = k.get("o")
     eff = convex if mn is None else mn
+    q = k.get("q", 0.5)
 
     def mk(c_=c, o_=o, convex_=convex):
         return cls(a, b, c_, o_, convex_) if noisy else cls(a, b, c_, convex_)
+
+    def same():
+        return inst if inst is not None else mk()
 
     def avg(dd, ns_=ns, mn_=mn, **kw):
         if not with_avg:
             return lambda: None
         return lambda: dd().average_tuning_curve(np.array(ns_), minimize=mn_, **kw)
 
+    def qtc(dd, mn_, q_=q):
+        return lambda: dd().quantile_tuning_curve(np.array(ns), q=q_, minimize=mn_)
+
+    at = {} if (not noisy or k.get("atol") is None) else dict(atol=k["atol"])      # the judged call's own atol
     if label == "sibling_convex":
         return [avg(lambda: mk(convex_=not convex), mn_=eff), avg(lambda: mk(convex_=not convex), mn_=not eff),
                 lambda: mk(convex_=not convex).quantile_tuning_curve(np.array(ns), q=k.get("q", 0.5), minimize=eff)]
@@ -389,15 +403,23 @@ def prime_calls(cls, k, label, noisy=True, with_avg=True):
         o2 = 2 * o if o > 0 else 0.25 * (b - a if b > a else 1.0)
         return [avg(lambda: mk(o_=o2), mn_=eff), lambda: mk(o_=o2).quantile_tuning_curve(np.array(ns), q=k.get("q", 0.5), minimize=eff)]
     if label == "same_other_n":
-        return [avg(mk, ns_=[1.0, 3.0, 57.0], mn_=eff)]
+        return [avg(same, ns_=[1.0, 3.0, 57.0], mn_=eff)]
     if label == "same_looser_atol" and noisy:
         S = b - a + 12 * o
-        return [avg(mk, mn_=eff, atol=max(1e-3 * S, 1e-300)), avg(mk, mn_=eff, atol=max(1e-4 * S, 1e-300))]
+        return [avg(same, mn_=eff, atol=max(1e-3 * S, 1e-300)), avg(same, mn_=eff, atol=max(1e-4 * S, 1e-300))]
     if label == "same_minimize_flip":
-        return [avg(mk, mn_=not eff), lambda: mk().quantile_tuning_curve(np.array(ns), q=k.get("q", 0.5), minimize=not eff)]
+        return [avg(same, mn_=not eff), qtc(same, not eff)]
     if label == "same_quantile_first":
-        return [lambda: mk().quantile_tuning_curve(np.array(ns), q=0.5, minimize=eff), lambda: mk().cdf(np.linspace(a - 1.0, b + 1.0, 33)),
-                lambda: mk().ppf(np.array([0.25, 0.75]))]
+        return [qtc(same, eff, 0.5), lambda: same().cdf(np.linspace(a - 1.0, b + 1.0, 33)),
+                lambda: same().ppf(np.array([0.25, 0.75]))]
+    if label == "same_instance_other_direction_same_ns":
+        # exactly the judged call (same ns, same atol) but for the other direction of optimisation, on the judged instance
+        return [avg(same, mn_=not eff, **at)] if with_avg else [qtc(same, not eff)]
+    if label == "same_instance_back_and_forth":
+        # the judged direction, the other one, (then the judged call): the direction flipped back and forth on one instance
+        return [avg(same, mn_=mn, **at), avg(same, mn_=not eff, **at)] if with_avg else [qtc(same, mn), qtc(same, not eff)]
+    if label == "twin_minimize_flip":
+        return [avg(mk, mn_=not eff), qtc(mk, not eff)]
     return []
 
 
@@ -441,6 +463,9 @@ def noisy_average_part(rep, rng, drv, NQ, switches, n_cases, replay):
         dict(a=0.3, b=1.3, c=5, convex=False, o=1e-3, mn=True, ns=[100.0], atol=None),
     ]
     kinds = ["generic", "zero_inside", "edge_near_zero", "noise_free", "far_location", "tiny_scale", "generic", "zero_inside"]
+    # the few integrated cases of the quick tier go through the history labels in turn (starting at a seeded offset), so that
+    # every label - in particular every same-instance one - occurs in each run
+    n_primed, prime_off = 0, rng.randrange(len(PRIMES))
     while len(cases) < n_cases:
         k = gen_noisy(rng, switches, kinds[len(cases) % len(kinds)])
         r = rng.random()
@@ -450,7 +475,9 @@ def noisy_average_part(rep, rng, drv, NQ, switches, n_cases, replay):
         atol = None if rng.random() < p_none else min(1e-3, S * 10.0 ** rng.uniform(-5, -3))
         if atol is not None and not (1e-6 * S <= atol <= 1e-3):
             atol = None
-        k.update(mn=rng.choice([None, False, True]), ns=ns, atol=atol, prime=(rng.choice(PRIMES) if rng.random() < 0.6 else None))
+        primed = rng.random() < 0.6
+        k.update(mn=rng.choice([None, False, True]), ns=ns, atol=atol, prime=(PRIMES[(n_primed + prime_off) % len(PRIMES)] if primed else None))
+        n_primed += primed
         cases.append(k)
     if replay is not None:
         cases = [replay]
@@ -465,7 +492,8 @@ def noisy_average_part(rep, rng, drv, NQ, switches, n_cases, replay):
         inp = dict(cls="NoisyQuadraticDistribution", a=C.fhex(a), b=C.fhex(b), c=c, o=C.fhex(o), convex=convex, minimize=mn, ns=hexl(ns),
                    atol=None if atol is None else C.fhex(atol), history=prime)
         shown = dict(a=a, b=b, c=c, o=o, convex=convex, minimize=mn, ns=ns, atol=atol,
-                     history=(None if prime is None else f"in the same process, first: {prime} (see prime_calls in harness/corr_C08.py)"))
+                     history=(None if prime is None else f"in the same process, first: {prime} (see prime_calls in harness/corr_C08.py; "
+                                                            "same_* calls are made on the judged instance itself)"))
         rep.count("noisy_avg:history=%s" % prime)
         rep.count("noisy_avg:regime=" + ("noiseless" if o < 1e-6 * (b - a) else "series" if o < 10 * (b - a) else "normal"))
         rep.count("noisy_avg:zero_%s_range" % ("inside" if lo <= 0 < hi else "outside"))
@@ -473,7 +501,9 @@ def noisy_average_part(rep, rng, drv, NQ, switches, n_cases, replay):
         with warnings.catch_warnings():
             warnings.simplefilter("ignore")
             d = NQ(a, b, c, o, convex)
-        status, vals = guarded_avg(d, ns, mn, atol, primes=prime_calls(NQ, k, prime) if prime else ())
+        # `d` is copied into the forked child together with the thunks that close over it: the same_* primes and the judged call
+        # act on one and the same object there
+        status, vals = guarded_avg(d, ns, mn, atol, primes=prime_calls(NQ, k, prime, inst=d) if prime else ())
         for n in ns:
             rep.case(("navg", inp["a"], inp["b"], c, inp["o"], convex, mn, inp["atol"], C.fhex(n)),
                      sample=dict(shown, n=n, impl=(vals[ns.index(n)] if status == "ok" else status)))
@@ -572,7 +602,8 @@ def run(seed, tier, replay=None):
         ns = [C.unhex(t) for t in inp["ns"]] if isinstance(inp.get("ns"), list) else [C.unhex(inp["n"])]
         base = dict(a=C.unhex(inp["a"]), b=C.unhex(inp["b"]), c=int(inp["c"]), convex=bool(inp["convex"]), mn=inp.get("minimize"), ns=ns)
         if inp.get("cls") == "QuadraticDistribution":
-            rp_q = dict(base, q=C.unhex(inp.get("q", C.fhex(0.5))), ns=sorted(set(ns + [1.0, 2.0]))[:7], ns_container=inp.get("ns_container"))
+            rp_q = dict(base, q=C.unhex(inp.get("q", C.fhex(0.5))), ns=sorted(set(ns + [1.0, 2.0]))[:7], ns_container=inp.get("ns_container"),
+                        prime=inp.get("history"))
         else:
             rp_n = dict(base, o=C.unhex(inp["o"]), atol=None if inp.get("atol") is None else C.unhex(inp["atol"]), prime=inp.get("history"))
     calib = {}
@@ -592,7 +623,11 @@ def run(seed, tier, replay=None):
              "n = 7 sorted reals in [1,1000] incl. 1 and 1000 (array and scalar). noisy quantile curve: generic / zero-inside-range / o=0 "
              "instances, s on both sides of every switch point. noisy average curve: the two documented probes, then generic / 0 inside "
              "[a-6o,b+6o] / an end of the range within 1e-6..5% of 0 / o=0 / |location| up to 1e7 widths from 0 / widths down to 1e-12; scalar and array n; atol None or in [1e-6 S, 1e-3]; a=b with "
-             "o=0 and o>0; every integrated call in a forked child (60 s, +1 GiB). A case is (curve, distribution, n[, q]).",
+             "o=0 and o>0; every integrated call in a forked child (60 s, +1 GiB). History: before 30% / 40% / 60% of the noiseless / noisy-quantile / "
+             "noisy-average cases other calls are made first (inside the forked child where there is one): same_* on the very instance that is "
+             "judged afterwards (other n, looser atol, the other direction with the same ns and atol, the direction flipped back and forth, "
+             "quantile curve / cdf / ppf first), twin_* on a new instance with equal parameters, sibling_* on a new instance differing in one "
+             "parameter. A case is (curve, distribution, n[, q]).",
         extra=dict(driver_lines=drv.lines, extra=dict(calibration=calib),
                    oracle="levels and noiseless closed forms in mpmath (40 digits); adaptive 20-point Gauss-Legendre quadrature of the class's own "
                           "cdf for E[best of n] (break points at a, b, a±3o, b±3o and at quantiles of F^n); the Lean model of the documented loop "
